@@ -64,6 +64,48 @@ enum StatementsOrEmpty {
     Empty(),
 }
 
+/// Returns the characters of a character string literal (the text between the
+/// quotes) with the dollar escapes replaced by the characters they stand for.
+///
+/// See section 2.2.2, tables 5 and 6. A character code has `hex_digits`
+/// hexadecimal digits (2 for single byte strings, 4 for double byte strings).
+fn unescape_character_string(text: &str, hex_digits: usize) -> Result<Vec<char>, &'static str> {
+    let mut chars = text.chars();
+    // The token includes the surrounding quotes, so remove those
+    chars.next();
+    chars.next_back();
+
+    let mut value = Vec::new();
+    while let Some(c) = chars.next() {
+        if c != '$' {
+            value.push(c);
+            continue;
+        }
+        match chars.next() {
+            Some('$') => value.push('$'),
+            Some('\'') => value.push('\''),
+            Some('"') => value.push('"'),
+            Some('L') | Some('l') | Some('N') | Some('n') => value.push('\n'),
+            Some('P') | Some('p') => value.push('\u{c}'),
+            Some('R') | Some('r') => value.push('\r'),
+            Some('T') | Some('t') => value.push('\t'),
+            Some(first) if first.is_ascii_hexdigit() => {
+                let mut code = first.to_digit(16).unwrap_or(0);
+                for _ in 1..hex_digits {
+                    let digit = chars
+                        .next()
+                        .and_then(|d| d.to_digit(16))
+                        .ok_or("character code with too few hexadecimal digits")?;
+                    code = code * 16 + digit;
+                }
+                value.push(char::from_u32(code).ok_or("character code is not a character")?);
+            }
+            _ => return Err("unknown escape in character string"),
+        }
+    }
+    Ok(value)
+}
+
 fn flatten_statements(mut items: Vec<StatementsOrEmpty>) -> Vec<StmtKind> {
     let mut stmts = Vec::new();
     for stmt_list in items.iter_mut() {
@@ -257,18 +299,11 @@ parser! {
 
     // B.1.2.2 Character strings
     rule character_string() -> Vec<char> = single_byte_character_string() / double_byte_character_string()
-    rule single_byte_character_string() -> Vec<char>  = (tok(TokenType::String) tok(TokenType::Hash))? t:tok(TokenType::SingleByteString) {
-      // The token includes the surrounding single quotes, so remove those when generating the literal
-      let mut chars = t.text.chars();
-      chars.next();
-      chars.next_back();
-      chars.collect()
+    rule single_byte_character_string() -> Vec<char>  = (tok(TokenType::String) tok(TokenType::Hash))? t:tok(TokenType::SingleByteString) {?
+      unescape_character_string(t.text.as_str(), 2)
     }
-    rule double_byte_character_string() -> Vec<char> = (tok(TokenType::WString) tok(TokenType::Hash))? t:tok(TokenType::DoubleByteString) {
-      let mut chars = t.text.chars();
-      chars.next();
-      chars.next_back();
-      chars.collect()
+    rule double_byte_character_string() -> Vec<char> = (tok(TokenType::WString) tok(TokenType::Hash))? t:tok(TokenType::DoubleByteString) {?
+      unescape_character_string(t.text.as_str(), 4)
     }
 
     // B.1.2.3 Time literals
